@@ -316,6 +316,7 @@ def close(program, world0, ghost0, client_actions, run_action, monitor, make_hoo
     store = {k0: (world0, ghost0)}
     queue = deque([k0])
     reported = set()
+    trans_cache = {}
     while queue:
         key = queue.popleft()
         world, ghost = store.pop(key)
@@ -326,33 +327,44 @@ def close(program, world0, ghost0, client_actions, run_action, monitor, make_hoo
         if res.states > max_states:
             raise RuntimeError("typestate budget exceeded")
         for action in client_actions(world, ghost):
-            prefix = []
-            while prefix is not None:
-                ch = Chooser(prefix)
-                hooks = make_hooks()
-                it = Interp(program, ch, hooks)
-                if configure is not None:
-                    configure(it)
-                w = clone(world)
-                hooks.world = w
-                outcome = "return"
-                obs = None
-                try:
-                    obs = run_action(it, w, action)
-                except AbsRaise as ar:
-                    outcome = ("raise", ar)
-                except PathAbort as pa:
-                    outcome = ("abort", pa.reason)
-                res.paths += 1
-                prefix = ch.next_prefix()
-                if isinstance(outcome, tuple) and outcome[0] == "abort":
-                    res.aborted += 1
-                    continue
-                g2, viols = monitor(copy.deepcopy(ghost), action, hooks.events, obs, outcome, w)
+            ck = (key[0], action)
+            runs = trans_cache.get(ck)
+            if runs is None:
+                # the interpretation of an action depends on the heap only, not on the monitor's ghosts:
+                # it is computed once per (heap typestate, action) and replayed for every ghost valuation
+                runs = []
+                prefix = []
+                while prefix is not None:
+                    ch = Chooser(prefix)
+                    hooks = make_hooks()
+                    it = Interp(program, ch, hooks)
+                    if configure is not None:
+                        configure(it)
+                    w = clone(world)
+                    hooks.world = w
+                    outcome = "return"
+                    obs = None
+                    try:
+                        obs = run_action(it, w, action)
+                    except AbsRaise as ar:
+                        outcome = ("raise", ar)
+                    except PathAbort as pa:
+                        outcome = ("abort", pa.reason)
+                    res.paths += 1
+                    prefix = ch.next_prefix()
+                    if isinstance(outcome, tuple) and outcome[0] == "abort":
+                        res.aborted += 1
+                        continue
+                    wn = clone(w)
+                    normalize(wn)
+                    runs.append((hooks.events, obs, outcome, w, wn, canon(wn), [c for (_, c, _) in ch.log]))
+                    res.run_events += len(hooks.events)
+                trans_cache[ck] = runs
+            for events, obs, outcome, w, wn, wkey2, choices in runs:
+                g2, viols = monitor(copy.deepcopy(ghost), action, events, obs, outcome, w)
                 if stop_rules is not None:
                     # rules owned by other properties neither report nor cut the exploration here
                     viols = [v for v in viols if v[0] in stop_rules]
-                res.run_events += len(hooks.events)
                 res.transitions += 1
                 if viols:
                     seq = client_sequence(seen, key) + [show_action(action)]
@@ -361,15 +373,14 @@ def close(program, world0, ghost0, client_actions, run_action, monitor, make_hoo
                         if vk in reported:
                             continue
                         reported.add(vk)
-                        res.violations.append(Violation(rule, msg, seq, [repr(e) for e in hooks.events][-40:], site, vk))
+                        res.violations.append(Violation(rule, msg, seq, [repr(e) for e in events][-40:], site, vk))
                     continue  # do not explore beyond an error state
-                normalize(w)
-                k2 = (canon(w), canon(g2))
+                k2 = (wkey2, canon(g2))
                 if res.transitions % sample_every == 1 and len(res.samples) < 12:
-                    res.samples.append({"client_sequence": client_sequence(seen, key) + [show_action(action)], "events": [repr(e) for e in hooks.events][:25], "observed": repr(obs), "choices": [c for (_, c, _) in ch.log]})
+                    res.samples.append({"client_sequence": client_sequence(seen, key) + [show_action(action)], "events": [repr(e) for e in events][:25], "observed": repr(obs), "choices": choices})
                 if k2 not in seen:
                     seen[k2] = (key, show_action(action))
-                    store[k2] = (w, g2)
+                    store[k2] = (wn, g2)
                     queue.append(k2)
     res.states = len(seen)
     return res
